@@ -4,7 +4,7 @@ from __future__ import annotations
 from harness.core import Prop
 
 COLS = ["n", "n10", "n102", "n2012", "i", "f", "s", "s5", "b", "dt", "tm", "ts", "tz", "bin", "v", "o", "ar"]
-QUERY = set(COLS) | {"two", "dup", "count", "litstr", "param", "random", "sample", "starzz"}
+QUERY = set(COLS) | {"two", "dup", "count", "litstr", "litsemi", "param", "random", "sample", "starzz"}
 NOPREC = {"count", "random", "ins", "upd", "del", "merge"}      # precision of counts / expressions: not fixed by the property
 ALL = sorted(QUERY | {"ins", "upd", "del", "merge", "createt", "alter", "dropt", "createv", "createsc", "usesc", "usedb", "begin",
                       "commit", "rollback", "setv", "unsetv", "call", "truncate", "show_tables", "show_schemas", "describe_table"})
@@ -20,6 +20,7 @@ def sql_of(kind: str):
         "count": ("select count(*) as c from ty", None),
         "starzz": ("select * from zz", None),
         "litstr": ("select 'x' as a", None),
+        "litsemi": ("select 'first; second' as a", None),
         "param": ("select s from ty where s = %s", ("x",)),
         "random": ("select random(42) as r", None),
         "sample": ("select i from ty sample (50) seed (7)", None),
